@@ -274,6 +274,16 @@ impl WorldC {
                 }
             }
         };
+        // a registered (or would-be) hook sometimes edits the hook list itself, naming its own address
+        let hook_named = msg
+            .get("remove_hook")
+            .or_else(|| msg.get("add_hook"))
+            .and_then(|h| h["addr"].as_str())
+            .map(|s| s.to_string());
+        let (sender, sender_is_contract) = match hook_named {
+            Some(h) if rng.chance(1, 4) => (h, true),
+            _ => (sender, sender_is_contract),
+        };
         let (fault, script) = self.gen_fault_and_script(rng);
         if sender_is_contract {
             // a contract admin (sink / multisig) acts through a sink relay
